@@ -205,7 +205,7 @@ fn text_at(line: &str, col: u32) -> Option<&str> {
     line[off..].split_whitespace().next().and_then(ident)
 }
 pub fn function_name() -> Report {
-    let bound = "10 minified programs (several functions per line, two lines, non-ASCII / astral characters before and inside identifiers, names that are prefixes of one another, a joiner directly after `function`, the same function name declared twice), tokens every 1 / 2 / 3 / 5 UTF-16 columns plus every word start, and on word starts only (so that `function NAME` token pairs exist) (and past the end; never inside a surrogate pair), all tokens named or every 2nd / 3rd / 4th one without a name, names starting with / consisting of '_' and '$' or starting with a joiner, identifiers continued by a combining mark / non-ASCII digit / U+203F, every start token x 33 candidate names; one 140-token line for the 128-token window";
+    let bound = "10 minified programs (several functions per line, two lines, non-ASCII / astral characters before and inside identifiers, names that are prefixes of one another, a joiner directly after `function`, the same function name declared twice), tokens every 1 / 2 / 3 / 5 UTF-16 columns plus every word start, and on word starts only (so that `function NAME` token pairs exist) (and past the end; never inside a surrogate pair), all tokens named or every 2nd / 3rd / 4th one without a name, names starting with / consisting of '_' and '$' or starting with a joiner, identifiers continued by a combining mark / non-ASCII digit / U+203F, every start token x 33 candidate names; the two-line programs again as index maps with one section per line; one 140-token line for the 128-token window";
     let mut cases = 0u64;
     let programs: Vec<Vec<&str>> = vec![
         vec!["function fn1(){} var é2=function g(){}", "function fn(){}function fn1 (){}"],
@@ -258,6 +258,36 @@ pub fn function_name() -> Report {
         } }
         }
     }
+    // index maps: one section per line of the minified text; a position resolves through the section it falls in, and the text of that
+    // section's tokens sits at their ABSOLUTE position in the view.  Known finding D18: for a section at a non-zero offset the library reads
+    // the view at section-relative positions (the answer then equals what the section's map gives on the unshifted view).
+    let mut known_d18: Option<String> = None;
+    for prog in programs.iter().filter(|p| p.len() == 2) {
+        let text = prog.join("\n");
+        let sv = SourceView::new(text.as_str().into());
+        let mut maps = vec![]; let mut views = vec![]; let mut poss = vec![];
+        for line in prog.iter() {
+            let mut b = SourceMapBuilder::new(None); let mut pos = vec![];
+            let mut col = 0u32; let mut prev_ws = true; for ch in line.chars() { if prev_ws && !ch.is_whitespace() { pos.push(col); } prev_ws = ch.is_whitespace() || ch == '(' || ch == '=' || ch == ';' || ch == '}'; col += ch.len_utf16() as u32; }
+            for (k, &c) in pos.iter().enumerate() { b.add(0, c, k as u32, 0, Some("o.js"), Some(&format!("orig{k}")), false); }
+            maps.push(b.into_sourcemap()); views.push(SourceView::new((*line).into())); poss.push(pos);
+        }
+        let idx = sourcemap::SourceMapIndex::new(None, vec![
+            sourcemap::SourceMapSection::new((0, 0), None, Some(DecodedMap::Regular(maps[0].clone()))),
+            sourcemap::SourceMapSection::new((1, 0), None, Some(DecodedMap::Regular(maps[1].clone())))]);
+        for sec in 0..2usize { for &c in &poss[sec] { for name in names {
+            cases += 1;
+            // what the section's own map answers on its own line of text
+            let want = maps[sec].get_original_function_name(0, c, name, &views[sec]).map(|s| s.to_string());
+            crate::witness(want.is_some() && name != "function");
+            let got = match guarded(|| idx.get_original_function_name(sec as u32, c, name, &sv).map(|s| s.to_string())) { Ok(g) => g, Err(p) => return r("function_name", bound, cases, Some(format!("index map over {prog:?}: get_original_function_name({sec}, {c}, {name:?}): {p}"))) };
+            if got == want { continue; }
+            let relative = maps[sec].get_original_function_name(0, c, name, &sv).map(|s| s.to_string());
+            if sec > 0 && got == relative { if known_d18.is_none() { known_d18 = Some(format!("index map with one section per line of {prog:?}: SourceMapIndex::get_original_function_name({sec}, {c}, {name:?}) = {got:?}, the section's map on its own line gives {want:?}")); } continue; }
+            return r("function_name", bound, cases, Some(format!("index map with one section per line of {prog:?}: SourceMapIndex::get_original_function_name({sec}, {c}, {name:?}) = {got:?}, the section's map on its own line of text gives {want:?}")));
+        } } }
+    }
+    if let Some(k) = known_d18 { println!("{}", serde_json::json!({"known_finding": "D18", "first_input": k})); }
     // the 128-token window
     for dist in [120usize, 126, 127, 128, 130] {
         cases += 1;
